@@ -239,7 +239,7 @@ CONTRACTS["vsg.rules.whitespace_between_tokens.Rule.create_violation"] = dict(
 # observed by the bounded layer, which evaluates the same effect clauses at every real rule.fix().
 ALIGN = dict(
     types={"oViolation": VIOL},
-    fields={"vsg.violation.New.action": "opt[rec{token_index:int,adjust:int}]"},
+    fields={"vsg.violation.New.action": "opt[rec{token_index:int,adjust:int,token_column:int,left_column:int,line_number:int,token_value:str}]"},
     requires=[
         "oViolation.action is not None",
         # the region names the aligned token (index 0 occurs: the token is then the first of its line and of the region,
